@@ -315,6 +315,7 @@ func (k *kase) ridBytes() []byte {
 }
 
 type world struct {
+	sess     *session
 	k        *kase
 	g, other *group
 	sub      int
@@ -329,6 +330,18 @@ type node struct {
 	lg    *doubles.Logger
 	d     *dosnode.DosNode
 	done  chan struct{} // handleQuery returned
+	// what the node had done before the current request of a history (hist lines: the same nodes serve
+	// several consecutive requests)
+	repBase, sentBase, evBase int
+}
+
+func (nd *node) reports() []doubles.Report { return nd.chain.Reports()[nd.repBase:] }
+func (nd *node) sent() []doubles.Sent      { return nd.p.Sent()[nd.sentBase:] }
+
+// session: the nodes of a history and the content 0 of its earlier requests
+type session struct {
+	nodes []*node
+	c0s   [][]byte
 }
 
 func (w *world) sigBytes(tok string, msgContent int) []byte {
@@ -363,6 +376,18 @@ func (w *world) sigBytes(tok string, msgContent int) []byte {
 		}
 		s = append([]byte(nil), s...)
 		s[0], s[1] = byte(v>>8), byte(v)
+		return s
+	case tok[0] == 'P':
+		// the exact bytes that were member x's VALID share on the content of request r of this history
+		p := strings.Split(tok[1:], ".")
+		x, r := h.Atoi(p[0]), h.Atoi(p[1])
+		if w.sess == nil || r >= len(w.sess.c0s) || w.sess.c0s[r] == nil {
+			panic("bad replay token " + tok)
+		}
+		s, err := tbls.Sign(suite, w.g.shares[x], w.sess.c0s[r])
+		if err != nil {
+			panic(err)
+		}
 		return s
 	case tok[0] == 'V' || tok[0] == 'T':
 		p := strings.Split(tok[1:], ".")
@@ -400,11 +425,18 @@ func (w *world) message(it item) *vss.Signature {
 const stageEvent = "recoverSign" // logged by recoverSign for every message it receives
 
 // run executes the case on real nodes and returns the canonical line and the oracle verdict.
-func run(k *kase) (impl, oracle, class string) {
+func run(k *kase) (impl, oracle, class string) { return runIn(k, nil) }
+
+// runIn: sess == nil builds fresh nodes for this one request; otherwise the request is served by the
+// nodes of the session (created by the first request), whose process-level and node-level state persists.
+func runIn(k *kase, sess *session) (impl, oracle, class string) {
 	g0 := mkGroup(k.n, k.seed, "grp")
 	g := &group{n: g0.n, t: g0.t, ids: k.ids, pub: g0.pub, shares: g0.shares, secret: g0.secret}
-	w := &world{k: k, g: g, other: mkGroup(k.n, k.seed, "foreign"), sub: k.submitter()}
+	w := &world{sess: sess, k: k, g: g, other: mkGroup(k.n, k.seed, "foreign"), sub: k.submitter()}
 	c0, c0ok := k.content0(g, w.sub)
+	if sess != nil {
+		defer func() { sess.c0s = append(sess.c0s, c0) }()
+	}
 	w.contents = append([][]byte{c0}, k.alts...)
 	if k.kind == "url" { // the selector evaluation must give what it gave when the case was generated
 		now := "err"
@@ -431,25 +463,39 @@ func run(k *kase) (impl, oracle, class string) {
 	var mu sync.Mutex
 	captured := map[int]*vss.Signature{}
 	capturedTo := map[int][]byte{}
-	for i := 0; i < k.n; i++ {
-		if k.byz[i] {
-			w.nodes = append(w.nodes, nil)
-			continue
+	if sess != nil && sess.nodes != nil {
+		w.nodes = sess.nodes
+		for _, nd := range w.nodes {
+			if nd != nil {
+				nd.done = make(chan struct{})
+				nd.repBase, nd.sentBase, nd.evBase = len(nd.chain.Reports()), len(nd.p.Sent()), nd.lg.Count(stageEvent)
+			}
 		}
-		nd := &node{idx: i, p: doubles.NewP2P(g.ids[i], 0), lg: doubles.NewLogger(), done: make(chan struct{})}
-		nd.chain = &doubles.Chain{Addr: common.BytesToAddress(g.ids[i]), BlockTime: 1}
-		nd.d = dosnode.VerifNewNode(g.ids[i], nd.p, nd.chain, nil, 21, nd.lg)
-		go nd.d.VerifQueryLoop()
-		w.nodes = append(w.nodes, nd)
+	} else {
+		for i := 0; i < k.n; i++ {
+			if k.byz[i] {
+				w.nodes = append(w.nodes, nil)
+				continue
+			}
+			nd := &node{idx: i, p: doubles.NewP2P(g.ids[i], 0), lg: doubles.NewLogger(), done: make(chan struct{})}
+			nd.chain = &doubles.Chain{Addr: common.BytesToAddress(g.ids[i]), BlockTime: 1}
+			nd.d = dosnode.VerifNewNode(g.ids[i], nd.p, nd.chain, nil, 21, nd.lg)
+			go nd.d.VerifQueryLoop()
+			w.nodes = append(w.nodes, nd)
+		}
+		if sess != nil {
+			sess.nodes = w.nodes
+		}
 	}
 	start := func(nd *node) {
+		done := nd.done
 		go func() {
 			u := url
 			if k.kind == "url" && k.fails[nd.idx] {
 				u = url404
 			}
 			nd.d.VerifHandleQuery(g.ids, g.pub, g.shares[nd.idx], "group-1", k.rid0(), k.last, seed, u, k.sel, ptype(k.kind))
-			close(nd.done)
+			close(done)
 		}()
 	}
 	// honest non-submitters run their pipelines first: each sends one share to the submitter
@@ -466,7 +512,7 @@ func run(k *kase) (impl, oracle, class string) {
 		case <-time.After(15 * time.Second):
 			return "stuck non-submitter", "stuck-non-submitter: the pipeline of a member that is not the derived submitter did not return (it waits for shares as if it were the submitter)", "stuck"
 		}
-		sent := nd.p.Sent()
+		sent := nd.sent()
 		if len(sent) >= 1 {
 			if s, ok := sent[0].Msg.(*vss.Signature); ok && s != nil {
 				mu.Lock()
@@ -535,7 +581,7 @@ func run(k *kase) (impl, oracle, class string) {
 	}
 	// wait until the submitter's stage has digested everything (or reported)
 	if sn != nil && started {
-		reported := func() bool { return len(sn.chain.Reports()) > 0 }
+		reported := func() bool { return len(sn.reports()) > 0 }
 		returned := func() bool {
 			select {
 			case <-sn.done:
@@ -557,7 +603,7 @@ func run(k *kase) (impl, oracle, class string) {
 					return "stuck no-content", "stuck-without-content: the submitter could not compute the content and its pipeline neither returned nor reported within 10 s (it waits for the peers' shares)", "stuck"
 				}
 			}
-		} else if !sn.lg.WaitCount(stageEvent, 1+toStage+1, func() bool { return reported() || returned() }, 10*time.Second) && !reported() && !returned() {
+		} else if !sn.lg.WaitCount(stageEvent, sn.evBase+1+toStage+1, func() bool { return reported() || returned() }, 10*time.Second) && !reported() && !returned() {
 			// own share + deliveries + sentinel; the sentinel is received only after the previous message was processed
 			return "stuck stage", "stuck: the submitter's recovery stage neither reported nor consumed its inputs", "stuck"
 		}
@@ -581,7 +627,7 @@ func run(k *kase) (impl, oracle, class string) {
 		if nd == nil {
 			continue
 		}
-		reps := nd.chain.Reports()
+		reps := nd.reports()
 		total += len(reps)
 		if len(reps) == 0 {
 			parts = append(parts, fmt.Sprintf("%d=-", nd.idx))
@@ -656,9 +702,11 @@ func run(k *kase) (impl, oracle, class string) {
 			oracle = fmt.Sprintf("no-report-byzantine-submitter: %d honest members (threshold %d) computed and sent their shares, the selected submitter (member %d) is faulty and nothing is reported", able, g.t, w.sub)
 		}
 	}
-	for _, nd := range w.nodes {
-		if nd != nil {
-			nd.d.VerifCancel()
+	if sess == nil {
+		for _, nd := range w.nodes {
+			if nd != nil {
+				nd.d.VerifCancel()
+			}
 		}
 	}
 	return strings.Join(parts, " "), oracle, w.classify()
@@ -813,7 +861,72 @@ var stuckCases int32
 
 func blsSignRaw(g *group, c []byte) ([]byte, error) { return bls.Sign(suite, g.secret, c) }
 
+// ---------------------------------------------------------------- histories
+//
+//	hist <n> <seed> <ids> <byz> <kind>/<last>/<rid>/<useed>/<sched> <kind>/… …
+//
+// The SAME n real nodes (one process, one queryLoop per node) serve the requests one after the other, so
+// whatever a node or a package keeps between requests is there. sched as in q lines (content 0 only), plus
+// the sig token P<x>.<r>: the exact bytes that were member x's VALID share on the content of request r of
+// this history (r earlier), here under this request's id and content: a foreign-request share that this
+// very process has verified before. Request ids are pairwise different. Output: the q output of every
+// request, joined by " | ". Oracle: every request on its own (exactly one valid report by the derived
+// submitter when >= t honest valid shares reach it, …): requests are independent (Props/C01.lean
+// requests_independent, c01_no_state_between_requests).
+func histRequests(line string) []string {
+	w := strings.Fields(line)
+	if len(w) < 6 || w[0] != "hist" {
+		panic("bad hist line")
+	}
+	var out []string
+	for _, r := range w[5:] {
+		f := strings.Split(r, "/")
+		if len(f) != 5 {
+			panic("bad hist request " + r)
+		}
+		out = append(out, fmt.Sprintf("q %s %s %s %s %s %s %s %s - - - - %s", f[0], w[1], w[2], w[3], w[4], f[1], f[2], f[3], f[4]))
+	}
+	return out
+}
+
+func runHist(line string) (impl, oracle, class string) {
+	sess := &session{}
+	var impls []string
+	reqs := histRequests(line)
+	for i, q := range reqs {
+		im, or, _ := runIn(parse(q), sess)
+		impls = append(impls, im)
+		if oracle == "" && or != "" {
+			if j := strings.Index(or, ": "); j >= 0 {
+				or = or[:j] + fmt.Sprintf(": request %d of the history: ", i) + or[j+2:]
+			}
+			oracle = or
+		}
+		if strings.HasPrefix(im, "stuck") {
+			break
+		}
+	}
+	for _, nd := range sess.nodes {
+		if nd != nil {
+			nd.d.VerifCancel()
+		}
+	}
+	return strings.Join(impls, " | "), oracle, fmt.Sprintf("history of %d requests on one set of nodes", len(reqs))
+}
+
 func exec(line string) (res h.Result) {
+	if strings.HasPrefix(line, "hist ") {
+		res.Nontrivial = true
+		if atomic.LoadInt32(&stuckCases) >= 3 {
+			res.Impl, res.Class = "not-run", "not-run"
+			return
+		}
+		res.Impl, res.Oracle, res.Class = runHist(line)
+		if strings.Contains(res.Impl, "stuck") {
+			atomic.AddInt32(&stuckCases, 1)
+		}
+		return
+	}
 	if strings.HasPrefix(line, "ev ") {
 		res.Nontrivial = true
 		if atomic.LoadInt32(&stuckCases) >= 3 {
